@@ -77,6 +77,17 @@ FORMS = {
     'BLAKE2B': (I + 'crypto.py', 'Blake2bInstruction'), 'SHA256': (I + 'crypto.py', 'Sha256Instruction'),
     'SHA512': (I + 'crypto.py', 'Sha512Instruction'), 'KECCAK': (I + 'crypto.py', 'KeccakInstruction'),
     'SHA3': (I + 'crypto.py', 'Sha3Instruction'),
+    # extension 2, phase A
+    'NEVER': (I + 'generic.py', 'NeverInstruction'), 'NAT': (I + 'arithmetic.py', 'NatInstruction'),
+    'BYTES': (I + 'arithmetic.py', 'BytesInstruction'), 'VOTING_POWER': (I + 'tezos.py', 'VotingPowerInstruction'),
+    'HASH_KEY': (I + 'crypto.py', 'HashKeyInstruction'),
+    # phase C
+    'ADDRESS': (I + 'tezos.py', 'AddressInstruction'), 'IMPLICIT_ACCOUNT': (I + 'tezos.py', 'ImplicitAccountInstruction'),
+    'CONTRACT': (I + 'tezos.py', 'ContractInstruction'), 'SELF': (I + 'tezos.py', 'SelfInstruction'),
+    'TRANSFER_TOKENS': (I + 'tezos.py', 'TransferTokensInstruction'), 'SET_DELEGATE': (I + 'tezos.py', 'SetDelegateInstruction'),
+    'EMIT': (I + 'tezos.py', 'EmitInstruction'),
+    # phase B (first half)
+    'PACK': (I + 'generic.py', 'PackInstruction'),
 }
 
 # module-level helper functions the instruction classes call: digest key -> (file, function)
@@ -85,6 +96,7 @@ HELPERS = {
     'execute_shift': (I + 'arithmetic.py', 'execute_shift'), 'execute_boolean_add': (I + 'boolean.py', 'execute_boolean_add'),
     'compare': (I + 'compare.py', 'compare'), 'execute_zero_compare': (I + 'compare.py', 'execute_zero_compare'),
     'execute_hash': (I + 'crypto.py', 'execute_hash'), 'dispatch_types': (I + 'base.py', 'dispatch_types'),
+    'get_entrypoint_type': (I + 'tezos.py', 'get_entrypoint_type'),
 }
 
 # methods: digest key -> (file, class, method)
@@ -97,6 +109,18 @@ METHODS = {
     'NatType.from_value': ('michelson/types/core.py', 'NatType', 'from_value'),
     'MutezType.from_value': ('michelson/types/domain.py', 'MutezType', 'from_value'),
     'TimestampType.from_value': ('michelson/types/domain.py', 'TimestampType', 'from_value'),
+    # phase C: how address texts are split and normalised, what an operation records
+    'AddressType.from_value': ('michelson/types/domain.py', 'AddressType', 'from_value'),
+    'AddressType._split': ('michelson/types/domain.py', 'AddressType', '_split'),
+    'ContractType.get_address': ('michelson/types/domain.py', 'ContractType', 'get_address'),
+    'ContractType.get_entrypoint': ('michelson/types/domain.py', 'ContractType', 'get_entrypoint'),
+    'OperationType.transaction': ('michelson/types/operation.py', 'OperationType', 'transaction'),
+    'OperationType.delegation': ('michelson/types/operation.py', 'OperationType', 'delegation'),
+    'OperationType.event': ('michelson/types/operation.py', 'OperationType', 'event'),
+    # phase B: what PACK calls (forge_micheline itself is property C05's mirror)
+    'MichelsonType.pack': ('michelson/types/base.py', 'MichelsonType', 'pack'),
+    'PairType.to_micheline_value': ('michelson/types/pair.py', 'PairType', 'to_micheline_value'),
+    'MapType.to_micheline_value': ('michelson/types/map.py', 'MapType', 'to_micheline_value'),
 }
 
 TYPE_PRIMS = {  # runtime class -> prim, re-read from the class keyword `prim=` below
@@ -1517,6 +1541,239 @@ def from_value(cls, value):
 @classmethod
 def from_value(cls, value):
     return cls(value)
+''',
+    # ---- extension 2, phase A
+    'NEVER': '''
+@classmethod
+def execute(cls, stack, stdout, context):
+    never = stack.pop1()
+    never.assert_type_equal(NeverType)
+    return cls()
+''',
+    'NAT': '''
+@classmethod
+def execute(cls, stack, stdout, context):
+    a = stack.pop1()
+    a.assert_type_in(BytesType)
+    res = NatType.from_value(int.from_bytes(bytes(a), 'big'))
+    stack.push(res)
+    return cls(stack_items_added=1)
+''',
+    'BYTES': '''
+@classmethod
+def execute(cls, stack, stdout, context):
+    a = stack.pop1()
+    a.assert_type_in(NatType, IntType)
+    int_val = int(a)
+    signed = not isinstance(a, NatType)
+    if signed:
+        length = (8 + (int_val + (int_val < 0)).bit_length()) // 8 if int_val else 0
+    else:
+        length = (7 + int_val.bit_length()) // 8
+    byte_val = int_val.to_bytes(length, 'big', signed=signed)
+    res = BytesType.from_value(byte_val)
+    stack.push(res)
+    return cls(stack_items_added=1)
+''',
+    'VOTING_POWER': '''
+@classmethod
+def execute(cls, stack, stdout, context):
+    address = stack.pop1()
+    address.assert_type_equal(KeyHashType)
+    res = NatType.from_value(context.get_voting_power(str(address)))
+    stack.push(res)
+    return cls(stack_items_added=1)
+''',
+    'HASH_KEY': '''
+@classmethod
+def execute(cls, stack, stdout, context):
+    a = stack.pop1()
+    a.assert_type_equal(KeyType)
+    key = Key.from_encoded_key(str(a))
+    res = KeyHashType.from_value(key.public_key_hash())
+    stack.push(res)
+    return cls(stack_items_added=1)
+''',
+    # ---- phase C (the repaired bodies: fixes/C01-1 … C01-4)
+    'ADDRESS': '''
+@classmethod
+def execute(cls, stack, stdout, context):
+    contract = stack.pop1()
+    contract.assert_type_in(ContractType)
+    res = AddressType.from_value(str(contract))
+    stack.push(res)
+    return cls(stack_items_added=1)
+''',
+    'IMPLICIT_ACCOUNT': '''
+@classmethod
+def execute(cls, stack, stdout, context):
+    key_hash = stack.pop1()
+    key_hash.assert_type_equal(KeyHashType)
+    res = ContractType.create_type(args=[UnitType]).from_value(str(key_hash))
+    stack.push(res)
+    return cls(stack_items_added=1)
+''',
+    'CONTRACT': '''
+@classmethod
+def execute(cls, stack, stdout, context):
+    entrypoint = next(iter(cls.field_names), 'default')
+    address = stack.pop1()
+    address.assert_type_in(AddressType)
+    contract_address, address_entrypoint = address._split()
+    contract_type = ContractType.create_type(args=cls.args)
+    try:
+        assert 'default' in (address_entrypoint, entrypoint)
+        if entrypoint == 'default':
+            entrypoint = address_entrypoint
+        entrypoint_type = get_entrypoint_type(context, entrypoint, address=contract_address)
+        if entrypoint_type is None:
+            if is_pkh(contract_address):
+                assert entrypoint == 'default'
+                assert cls.args[0].prim in ('unit', 'ticket')
+        else:
+            entrypoint_type.assert_type_equal(cls.args[0])
+        res = OptionType.from_some(contract_type.from_value(f'{contract_address}%{entrypoint}'))
+    except (AssertionError, MichelsonRuntimeError):
+        res = OptionType.none(contract_type)
+    stack.push(res)
+    return cls(stack_items_added=1)
+''',
+    'SELF': '''
+@classmethod
+def execute(cls, stack, stdout, context):
+    entrypoint = next(iter(cls.field_names), 'default')
+    self_type = get_entrypoint_type(context, entrypoint)
+    assert self_type
+    self_address = context.get_self_address()
+    res_type = ContractType.create_type(args=[self_type])
+    res = res_type.from_value(f'{self_address}%{entrypoint}')
+    stack.push(res)
+    return cls(stack_items_added=1)
+''',
+    'TRANSFER_TOKENS': '''
+@classmethod
+def execute(cls, stack, stdout, context):
+    parameter, amount, destination = stack.pop3()
+    amount.assert_type_equal(MutezType)
+    assert isinstance(destination, ContractType)
+    param_type = destination.args[0]
+    parameter.assert_type_equal(param_type)
+    ep_type = get_entrypoint_type(context, destination.get_entrypoint(), address=destination.get_address())
+    if ep_type:
+        parameter.assert_type_equal(ep_type, message='destination contract parameter')
+    transaction = OperationType.transaction(source=context.get_self_address(), destination=destination.get_address(), amount=int(amount), entrypoint=destination.get_entrypoint(), value=parameter.to_micheline_value(), param_type=param_type)
+    stack.push(transaction)
+    return cls(stack_items_added=1)
+''',
+    'SET_DELEGATE': '''
+@classmethod
+def execute(cls, stack, stdout, context):
+    delegate = stack.pop1()
+    delegate.assert_type_equal(OptionType.create_type(args=[KeyHashType]))
+    delegation = OperationType.delegation(source=context.get_self_address(), delegate=None if delegate.is_none() else str(delegate.get_some()))
+    stack.push(delegation)
+    return cls(stack_items_added=1)
+''',
+    'EMIT': '''
+@classmethod
+def execute(cls, stack, stdout, context):
+    event_type = cls.args[0]
+    payload = stack.pop1()
+    payload.assert_type_equal(event_type)
+    tag = cls.field_names[0] if len(cls.field_names) == 1 else ''
+    res = OperationType.event(source=context.get_self_address(), event_type=event_type, payload=payload.to_micheline_value(), tag=tag)
+    stack.push(res)
+    return cls(stack_items_added=0)
+''',
+    'get_entrypoint_type': '''
+def get_entrypoint_type(context, name, address=None):
+    expr = context.get_parameter_expr(address)
+    if expr is None:
+        return None
+    parameter = ParameterSection.match(expr)
+    entrypoints = parameter.list_entrypoints()
+    assert name in entrypoints
+    return entrypoints[name]
+''',
+    'AddressType.from_value': '''
+@classmethod
+def from_value(cls, value):
+    address, _, entrypoint = value.partition('%')
+    if entrypoint == 'default':
+        value = address
+    assert is_address(value)
+    return cls(value)
+''',
+    'AddressType._split': '''
+def _split(self):
+    address, _, entrypoint = self.value.partition('%')
+    return (address, entrypoint or 'default')
+''',
+    'ContractType.get_address': '''
+def get_address(self):
+    return self._split()[0]
+''',
+    'ContractType.get_entrypoint': '''
+def get_entrypoint(self):
+    return self._split()[1]
+''',
+    'OperationType.transaction': '''
+@classmethod
+def transaction(cls, source, destination, amount, entrypoint, value, param_type):
+    content = {'kind': 'transaction', 'source': source, 'destination': destination, 'amount': str(amount), 'parameters': {'entrypoint': entrypoint, 'value': value}}
+    return cls(content, ty=param_type)
+''',
+    'OperationType.delegation': '''
+@classmethod
+def delegation(cls, source, delegate=None):
+    content = {'kind': 'delegation', 'source': source, 'delegate': delegate}
+    return cls(content)
+''',
+    'OperationType.event': '''
+@classmethod
+def event(cls, source, event_type, payload, tag):
+    content = {'kind': 'event', 'source': source, 'event_type': event_type.as_micheline_expr(), 'payload': payload, 'tag': tag}
+    return cls(content, ty=event_type)
+''',
+    # ---- phase B (first half)
+    'PACK': '''
+@classmethod
+def execute(cls, stack, stdout, context):
+    a = stack.pop1()
+    res = BytesType.from_value(a.pack())
+    stack.push(res)
+    return cls(stack_items_added=1)
+''',
+    'MichelsonType.pack': '''
+def pack(self, legacy=False):
+    assert self.is_packable()
+    data = self.forge(mode='legacy_optimized' if legacy else 'optimized')
+    return b'\\x05' + data
+''',
+    'PairType.to_micheline_value': '''
+def to_micheline_value(self, mode='readable', lazy_diff=False):
+    if mode == 'legacy_optimized':
+        items = self.items
+    else:
+        items = list(self.iter_comb())
+    args = [arg.to_micheline_value(mode=mode, lazy_diff=lazy_diff) for arg in items]
+    if mode in ['readable', 'legacy_optimized']:
+        return {'prim': 'Pair', 'args': args}
+    elif mode == 'optimized':
+        if len(args) == 2:
+            return {'prim': 'Pair', 'args': args}
+        elif len(args) == 3:
+            return {'prim': 'Pair', 'args': [args[0], {'prim': 'Pair', 'args': args[1:]}]}
+        elif len(args) >= 4:
+            return args
+        else:
+            raise AssertionError(f'unexpected number of args {len(args)}')
+    else:
+        raise AssertionError(f'unsupported mode {mode}')
+''',
+    'MapType.to_micheline_value': '''
+def to_micheline_value(self, mode='readable', lazy_diff=False):
+    return [{'prim': 'Elt', 'args': [x.to_micheline_value(mode=mode, lazy_diff=lazy_diff) for x in elt]} for elt in self]
 ''',
 }
 
